@@ -108,6 +108,9 @@ def run(spec):
             payer = None
         mult = len([x for x in spec['links'] if x['kind'] == l['kind'] and x['src'] == l['src'] and x['dst'] == l['dst']
                     and x.get('name') == l.get('name')])
+        # the sender pays the same variable once per registration, whatever the destination
+        mult_sender = len([x for x in spec['links'] if x['kind'] == l['kind'] and x['src'] == l['src']
+                           and x.get('name') == l.get('name')])
         for k in range(1, K + 1):
             known = dict(sol.values[k])
             known.pop(var, None)
@@ -122,7 +125,7 @@ def run(spec):
             if payer is not None:
                 form = expr.affine_eval(system.eqs[payer.GetVariableName('F')], known)
                 got = form.coef.get(var, Fraction(0))
-                if got != -mult:
+                if got != -mult_sender:
                     raise Violation('C07/sender-debit', 'period %d: sender %s is debited %s per unit of %s' %
                                     (k, payer.FullCode, float(got), var))
             if want != 1 and amount != 0:
